@@ -64,7 +64,7 @@ func runOverlap(k kase) (o outcome) {
 			o.Internal = fmt.Sprintf("checker panic on %s: %v", k.key(), r)
 		}
 	}()
-	add := func(clause, what string) { o.Findings = append(o.Findings, finding{clause, what}) }
+	add := func(clause, what string) { o.Findings = append(o.Findings, finding{Clause: clause, What: what}) }
 	c := mkAdapter(k.Adapter)
 	a, b := specByName[k.Src], specByName[k.Inner]
 
